@@ -4,6 +4,7 @@ CONSTANTS
   MaxWrites = 3
   MaxSteps = 7
   WithFatalKeep = TRUE
+  WithEof = TRUE
   Variant = "drop"
 INVARIANT TypeOK
 INVARIANT Conforms
